@@ -7,7 +7,7 @@ unsigned g_op_sign_calls; const jwk_item_t *g_op_sign_key; jwt_alg_t g_op_sign_a
 unsigned g_op_verify_calls; const jwk_item_t *g_op_verify_key; jwt_alg_t g_op_verify_alg; const char *g_op_verify_data; unsigned int g_op_verify_len;
 const unsigned char *g_op_verify_sig; int g_op_verify_siglen; int g_op_verify_ret;
 struct jwt_crypto_ops *jwt_ops;
-size_t g_vj_len_a, g_vj_len_b;
+size_t g_vj_len_a, g_vj_len_b, g_vj_len_c, g_vj_len_d;
 /* the clock (time() model) */
 time_t g_now;
 jwt_claims_t g_vc_ret;
